@@ -13,6 +13,6 @@ igc_one() { # $1 = shim dir, $2 = out.o, $3 = src.c
         -U_FORTIFY_SOURCE -D_GNU_SOURCE -D'__weak_alias(a,b)=' -isystem "$1" -I"$REPO" "$3" -o "$2" || return 1
     objcopy --prefix-symbols=igc_ "$2" || return 1
     local args=()
-    for s in $IGC_KEEP; do args+=(--redefine-sym "igc_$s=$s"); done
+    for s in $IGC_KEEP $IGC_KEEP_EXTRA; do args+=(--redefine-sym "igc_$s=$s"); done
     objcopy "${args[@]}" "$2"
 }
